@@ -914,6 +914,12 @@ def cases(rng, tier):
         for root in ROOTS:
             for host in (None, "example.org"):
                 yield mk_req("http", "example.org", 80, host, root, path, b"")
+    # the path repeats / extends the root path (root path + path must still be their plain concatenation)
+    for root in ["/api", "/a", "/app/", "/"]:
+        for path in [root, root + "/users", root + "x", root.rstrip("/") + "b/c", "/" + root.strip("/"), "/"]:
+            for host in (None, "example.org"):
+                yield mk_req("http", "example.org", 80, host, root, path, b"")
+                yield mk_req("https", "127.0.0.1", 8443, host, root, path, b"q=1")
     for query in QUERIES_MORE:
         for host in (None, "h:81"):
             yield mk_req("https", "::1", 443, host, "/r", "/p", query)
@@ -941,8 +947,8 @@ def cases(rng, tier):
                             [(b"Host", b"upper")], [(b"host", b"\xe9")], [(b"host", b"[")]):
                 for qs in (None, b"", b"abc=123", b"a=\xff"):
                     yield mk_scope_line(scheme, server, None, "/path/to/somewhere", qs, headers)
-    for path in ["/p", "", "//evil/x", "x", " /p", "/a?b", "http://x/"]:
-        for root in (None, "", "/root"):
+    for path in ["/p", "", "//evil/x", "x", " /p", "/a?b", "http://x/", "/root", "/root/p", "/rootp"]:
+        for root in (None, "", "/root", "/root/"):
             yield mk_scope_line(None, None, root, path, b"", [])
     # -- replace: every subset of the eight components on every base URL
     for url in BASE_URLS:
